@@ -1454,6 +1454,13 @@ class _IndexGOMixin:
         Args:
             values: can be a generator.
         '''
+        # validate all values before appending any, so that a duplicate leaves the index unchanged
+        values = tuple(values)
+        incoming = set()
+        for value in values:
+            if value in incoming or self.__contains__(value): #type: ignore
+                raise KeyError(f'duplicate key append attempted: {value}')
+            incoming.add(value)
         for value in values:
             self.append(value)
 
